@@ -11,12 +11,12 @@ git -C /repo worktree add -q --detach $w HEAD || exit 2
 ( cd $w && git apply $d/patch.diff ) || { echo "PATCH DOES NOT APPLY"; git -C /repo worktree remove --force $w; exit 2; }
 cp $d/demo_test.go $w/$pkg/zz_seed_demo_test.go
 ( cd $w && go build ./... 2>&1 | grep -v WARNING | head -5 )
-suite=$( cd $w && mv $pkg/zz_seed_demo_test.go /tmp/zz_demo.go && go test -vet=off -count=1 . ./internal/ ./datadictionary/ ./store/file/ ./store/memory/ 2>&1 | grep -v WARNING | grep -c "^ok" ; mv /tmp/zz_demo.go $pkg/zz_seed_demo_test.go)
+suite=$( cd $w && mv $pkg/zz_seed_demo_test.go /tmp/zz_demo.go && go test -vet=off -count=1 . ./internal/ ./datadictionary/ ./store/file/ ./store/memory/ ./store/sql/ 2>&1 | grep -v WARNING | grep -c "^ok" ; mv /tmp/zz_demo.go $pkg/zz_seed_demo_test.go)
 with=$( cd $w && go test -vet=off -count=1 -run 'Seed|seed|Demo' ./$pkg/ 2>&1 | grep -v WARNING | tail -1 | cut -c1-60)
 ( cd $w && git apply -R $d/patch.diff )
 without=$( cd $w && go test -vet=off -count=1 -run 'Seed|seed|Demo' ./$pkg/ 2>&1 | grep -v WARNING | tail -1 | cut -c1-60)
 git -C /repo worktree remove --force $w
-echo "suite-ok-packages=$suite/5 | demo with change: $with | demo without: $without"
+echo "suite-ok-packages=$suite/6 | demo with change: $with | demo without: $without"
 git -C /repo apply $d/patch.diff || exit 2
 cd /verif
 for p in "$@"; do
